@@ -155,7 +155,7 @@ def q2(chk, repo):
                     f"normalize_chunksize({c}, {d}) -> {got[1] if got[0] == 'c' else got}, expected {want}: advertised chunk size is not min(records_per_chunk, lines)",
                     key=f"normalize_chunksize:{label}", sample={"case": label, "chunksize": c, "dim_size": d, "result": want})
     # __post_init__ int path feeds the option and shape[0]
-    pi = am.func("Array.__post_init__")
+    pi = am.func_any("Array.__post_init__", "Array.__init__")
     call = None
     for c in calls_in(pi):
         if any(x.key.endswith(":normalize_chunksize") for x in resolve_callees(repo, pi, c.func)):
@@ -173,10 +173,14 @@ def q2(chk, repo):
         st = call
         while not isinstance(st, ast.stmt):
             st = st._parent
-        from ..dataflow import wired
+        from ..dataflow import init_aliases, wired
         pflow = Flow(pi)
-        v0, t0 = wired(pflow, b.get(nc.positional_params[0]), "self.records_per_chunk")
-        v1, t1 = wired(pflow, b.get(nc.positional_params[1]), ["self.shape[0]", "len(self.byte_ranges)"])
+        ali = init_aliases(pi)
+        # in a plain __init__ the option is the parameter itself, the shape / byte ranges the parameters stored unchanged
+        opt_names = ["self.records_per_chunk"] + [p_ for p_ in pi.params if p_ == "records_per_chunk" and p_ not in ali]
+        lines_names = ["self.shape[0]", "len(self.byte_ranges)"] + [f"{p_}[0]" for p_, a_ in ali.items() if a_ == "self.shape"] + [f"len({p_})" for p_, a_ in ali.items() if a_ == "self.byte_ranges"]
+        v0, t0 = wired(pflow, b.get(nc.positional_params[0]), opt_names)
+        v1, t1 = wired(pflow, b.get(nc.positional_params[1]), lines_names)
         stored = isinstance(st, ast.Assign) and norm(st.targets[0]) == "self.records_per_chunk"
         if "unknown" in (v0, v1) or (not stored and not isinstance(st, ast.Return)):
             raise AnalysisError(f"{am.relpath}:Array.__post_init__: normalize_chunksize({t0}, {t1}) in `{short(st, 60)}`: operands are computed, not referenced; not decided")
